@@ -146,7 +146,7 @@ def parseRat (s : String) : Option Rat :=
 def showRat (r : Rat) : String := s!"{r.num}/{r.den}"
 
 def parseRatMat (n : Nat) (s : String) : Option (AMat Rat n) := do
-  let xs ← (s.splitOn ",").mapM parseRat
+  let xs ← if s == "-" || s == "" then some [] else (s.splitOn ",").mapM parseRat
   if xs.length == n * n then
     let a := xs.toArray
     some (AMat.ofFn fun i j => a[i.val * n + j.val]!)
@@ -167,8 +167,7 @@ def showCoreness (r : (Fin n → Nat) × List Nat) : String :=
 def step (line : String) : String :=
   let (op, kv) := parseLine line
   let res : Option String := do
-    let n ← (← lookup kv "n").toNat?
-    if n == 0 then none
+    let n ← (← lookup kv "n").toNat?    -- n = 0 is a legal input: bct returns the empty matrix / empty vectors and size 0
     if op == "score_wu" then
       let A ← parseRatMat n (← lookup kv "A")
       let s ← parseRat (← lookup kv "s")
